@@ -80,6 +80,7 @@ def vr_returns(P, fid, seen=None):
 def run(P, R, tier):
     R.undecided += ["behaviour of the Fortran module body (no Fortran front end in the image: only its BIND(C) table, "
                     "dummy-argument counts and PARAMETER constants are checked)"]
+    nullarg_rule(P, R)
     hdr = {d["q"]: d for d in P.decls.values() if d["file"] == "IPhreeqc.h"}
     cdefs = {f["q"]: f for f in P.functions.values() if f["file"] == "IPhreeqcLib.cpp" and f.get("externC") and "cls" not in f}
     fdefs = {f["q"]: f for f in P.functions.values() if f["file"] == "IPhreeqc_interface_F.cpp" and "cls" not in f}
@@ -1341,3 +1342,91 @@ def keyeddefault_rule(P, R):
         else:
             R.violation(RULE, inst, "%s returns what %s holds for the current user number and nothing provides the documented default selected_<n>.<id>.out for a number "
                         "other than the one the constructor prepares: a fresh instance reports \"\" for block 2" % (r["getter"], r["field"]), file=getter["file"], line=getter["line"], function=getter["q"])
+
+
+NULLARG_LIBRARY = {
+    # uses that hand the pointer to the standard library, where a null pointer gives an exception or a failed open, not a wild read
+    "IPhreeqc::RunString": "std::string(input): std::logic_error, recorded by the run boundary (known finding C08.boundary)",
+    "IPhreeqc::load_db_str": "std::string(input): std::logic_error, recorded by the load boundary (known finding C08.boundary)",
+}
+
+
+def nullarg_rule(P, R):
+    """"invalid arguments are rejected and change nothing": every text argument of the API (a `const char *` parameter of a public method of
+    IPhreeqc that a C function of IPhreeqc.h forwards to) may be NULL.  Where the method, or the function it forwards the pointer to,
+    hands it to code that reads through it (std::string::append / += / assign, strlen, strcpy, strcmp, operator<< on a stream that
+    outlives the call), a null test of that parameter must come first.  (AddError(NULL) poisoned the error stream of the instance for
+    ever, AccumulateLine(NULL) was a segmentation fault.)"""
+    RULE = "C13.nullarg"
+    R.rule(RULE, "every const char* argument of the API is null-tested before code that reads through it", minimum=8)
+    READS = {"append", "operator+=", "assign", "strlen", "strcpy", "strcmp", "strncpy", "strcat"}
+    rec = P.records.get("IPhreeqc")
+    api = {f["q"].split("::")[-1] for f in P.functions.values() if f["file"] == "IPhreeqcLib.cpp" and f.get("externC")}
+    n = 0
+
+    def sites(f, pn, depth, trail):
+        """yield (function, line, what, guarded) for reads through parameter pn of f"""
+        tests = []
+        for x in T.walk(f["body"]):
+            if x[0] == "If" and any(y[0] == "Ref" and y[2] == "param" and y[3] == pn for y in T.walk(x[2])):
+                tests.append(x)
+
+        def guarded(line):
+            for t in tests:
+                if t[1] <= line:
+                    return True
+            return False
+        for c in T.walk(f["body"]):
+            if c[0] != "Call":
+                continue
+            for i, a in enumerate(c[4] or []):
+                a2 = T.strip_casts(a)
+                if not (T.is_node(a2) and a2[0] == "Ref" and a2[2] == "param" and a2[3] == pn):
+                    continue
+                name = T.callee_name(c)
+                if name in READS:
+                    yield f, c[1], name, guarded(c[1])
+                elif name == "operator<<":
+                    root = c[4][0]
+                    while T.is_node(root) and root[0] == "Call" and T.callee_name(root) == "operator<<":
+                        root = root[4][0]
+                    root = T.strip_casts(root)
+                    if not (T.is_node(root) and root[0] == "Ref" and root[2] == "local"):
+                        yield f, c[1], "operator<< (stream that outlives the call)", guarded(c[1])
+                elif depth < 2 and isinstance(c[2], dict) and c[2].get("proj"):
+                    if guarded(c[1]):
+                        continue
+                    q = T.callee_q(c)
+                    targets = [g for g in P.functions.values() if g.get("body") and (g["q"] == q or c[2].get("id") in (g.get("overrides") or []))]
+                    off = 1 if (c[2].get("k") == "op" and c[2].get("cls")) else 0
+                    for g in targets:
+                        j = i - off
+                        if 0 <= j < len(g["pnames"]) and g["params"][j].replace(" ", "") == "constchar*":
+                            yield from sites(g, g["pnames"][j], depth + 1, trail + [g["q"]])
+    seen = set()
+    for f in sorted(P.functions.values(), key=lambda g: (g["file"], g["line"])):
+        if not f.get("body") or f.get("cls") != "IPhreeqc" or f["name"] not in api:
+            continue
+        for pn, pt in zip(f["pnames"], f["params"]):
+            if pt.replace(" ", "") != "constchar*":
+                continue
+            found = False
+            for g, line, what, ok in sites(f, pn, 0, [f["q"]]):
+                found = True
+                inst = "%s(%s)->%s@%d" % (f["name"], pn, g["q"].split("::")[-1], line - g["line"])
+                if inst in seen:
+                    continue
+                seen.add(inst)
+                n += 1
+                if ok:
+                    R.ok(RULE, inst, "%s after a null test of the parameter" % what)
+                else:
+                    R.violation(RULE, inst, "%s(%s = NULL) reaches %s in %s (line %d) without a null test: a wild read or a permanently failed stream instead of a rejected "
+                                "argument" % (f["name"], pn, what, g["q"], line), file=g["file"], line=line, function=g["q"])
+            if not found:
+                n += 1
+                lib = NULLARG_LIBRARY.get(f["q"]) or next((v for k, v in NULLARG_LIBRARY.items()
+                                                           if any(T.callee_q(c) == k for c in T.calls(f["body"]))), None)
+                R.ok(RULE, "%s(%s)" % (f["name"], pn), lib or "no read through the pointer in the method or the functions it forwards it to (file open / library call)")
+    if n < 8:
+        R.anchor_missing(RULE, "only %d text arguments of the API analysed" % n)
